@@ -149,6 +149,32 @@ Artefact(s, r, passed) ==
      cofiles   |-> {File(t) : t \in CoSets(s)},
      shared    |-> Shared(s)]
 
+(* ------------------------------ bundles ------------------------------ *)
+(* The generic entry point cyecca/codegen.generate_code takes a DICTIONARY of equation sets and
+   writes "one C file per equation set, every function added": file <key>.c holds exactly the
+   functions stored under <key>, whatever the other keys are and in whatever order the
+   dictionary lists them.  A bundle is one such call with several of the shipped sets.       *)
+BundleArt(s) ==
+    LET g == "generic" r == DefaultRow("generic") IN
+    [set |-> s, gen |-> g, file |-> s, kind |-> "bundle", passed |-> FALSE, keys |-> Keys(g),
+     vals |-> [i \in 1..Len(Keys(g)) |-> r[i]],
+     functions |-> Names(s),
+     nin  |-> [i \in 1..Len(Exports[s]) |-> Exports[s][i].nin],
+     nout |-> [i \in 1..Len(Exports[s]) |-> Exports[s][i].nout],
+     header |-> Opt(g, r, "with_header"), memtable |-> Opt(g, r, "with_mem"), main |-> Opt(g, r, "main"),
+     mex |-> Opt(g, r, "mex"), cplusplus |-> Opt(g, r, "cpp"), export |-> Opt(g, r, "with_export"),
+     mathh |-> Opt(g, r, "include_math")]
+Reverse(q) == [i \in 1..Len(q) |-> q[Len(q) + 1 - i]]
+QuickOrders == { <<"rdd2", "bezier">>, <<"simulator", "estimator", "mr_ref_traj">>,
+                 <<"rdd2_loglinear", "rdd2", "bezier", "estimator">>, Sets, Reverse(Sets),
+                 <<"mr_ref_traj", "estimator", "rdd2", "simulator", "bezier", "rdd2_loglinear">> }
+OrderedPairs   == {<<Sets[i], Sets[j]>> : i, j \in DOMAIN Sets} \ {<<Sets[i], Sets[i]>> : i \in DOMAIN Sets}
+Orders == IF Tier = "quick" THEN QuickOrders ELSE QuickOrders \cup OrderedPairs \cup {Sets}
+BundleVec(o) == [op |-> "bundle", order |-> o, files |-> [i \in 1..Len(o) |-> BundleArt(o[i])]]
+\* at least one order is neither sorted nor reverse sorted by name, for every adjacent pair both relative orders occur
+ASSUME \A o \in Orders : \A i, j \in DOMAIN o : i # j => o[i] # o[j]
+ASSUME \A a, b \in Range(Sets) : a # b => \E o \in Orders : \E i, j \in DOMAIN o : i < j /\ o[i] = a /\ o[j] = b
+
 (* ------------------------------ input patterns ------------------------------ *)
 Patterns == <<"zero", "unit", "negunit", "generic", "neg", "tiny", "switch", "big", "posrot", "negrot", "grav">>
 \* pairs (A, B) used for the two-valued covering designs over the arguments
@@ -179,7 +205,9 @@ GenerateDefault == \E i \in DOMAIN Sets : tv' = Artefact(Sets[i], DefaultRow(Gen
 Evaluate == \E i \in DOMAIN Sets : \E k \in DOMAIN Exports[Sets[i]] :
                 \E row \in InputRows(Exports[Sets[i]][k].nin) : tv' = EvalVec(Sets[i], k, row)
 
-Next == tv.op = "idle" /\ (Generate \/ GenerateDefault \/ Evaluate)
+Bundle == \E o \in Orders : tv' = BundleVec(o)
+
+Next == tv.op = "idle" /\ (Generate \/ GenerateDefault \/ Evaluate \/ Bundle)
 Spec == Init /\ [][Next]_tv
 
 (* ------------------------------ contract (invariants) ------------------------------ *)
@@ -204,6 +232,17 @@ Accepted == IsGen => /\ tv.keys = Keys(tv.gen)
 Shape == IsGen => /\ tv.header    = Opt(tv.gen, tv.vals, "with_header")
                   /\ tv.memtable  = Opt(tv.gen, tv.vals, "with_mem")
                   /\ tv.file \in tv.cofiles
+
+\* a bundle: file i is named after key i and holds exactly the functions of THAT set, independent of
+\* the position of the key in the dictionary and of the other keys
+BundleOK == tv.op = "bundle" =>
+    /\ \A i \in DOMAIN tv.order : /\ tv.files[i].set = tv.order[i] /\ tv.files[i].file = tv.order[i]
+                                   /\ Len(tv.files[i].functions) = Len(Exports[tv.order[i]])
+                                   /\ \A k \in DOMAIN tv.files[i].functions :
+                                          tv.files[i].functions[k] = Exports[tv.order[i]][k].name
+    /\ \A i, j \in DOMAIN tv.order : i # j => tv.files[i].file # tv.files[j].file
+    /\ \A o \in Orders : \A i \in DOMAIN tv.order : \A j \in DOMAIN o :
+          o[j] = tv.order[i] => BundleVec(o).files[j].functions = tv.files[i].functions
 
 EvalOK == tv.op = "eval" => /\ Len(tv.pats) = tv.nin
                             /\ \A i \in DOMAIN tv.pats : tv.pats[i] \in Range(Patterns)
